@@ -263,7 +263,8 @@ func c19Unit(c *RunCtx, unit int) {
 		case 1:
 			pid = pickS(r, "", " ", "no-at-sign", "a@b", "a@b.C", "x y@z.test", "a@\nb.test", "TAKEN@site.test", "a@b.test\n")
 		}
-		pw := pickS(r, "Valid1!password", "Valid1!password", "Valid1!password", "short1!", "nouppercase1!", "NOLOWERCASE1!", "NoDigits!!!", "NoSymbols11", "With Space1!", strings.Repeat("Aa1!", 18)+"x", strings.Repeat("Aa1!", 18), "Aa1!aaaa", "")
+		pw := pickS(r, "Valid1!password", "Valid1!password", "Valid1!password", "short1!", "nouppercase1!", "NOLOWERCASE1!", "NoDigits!!!", "NoSymbols11", "With Space1!", strings.Repeat("Aa1!", 18)+"x", strings.Repeat("Aa1!", 18), "Aa1!aaaa", "",
+			"$2a$04$N9qo8uLOickgx2ZMRZoMyeIjZAgcfl7p92ldGxad68LJZdL17lhWy", "$2a$10$R9h/cIPz0gi.URNNX3kh2OPST9/PgBkqquzi.Ss7KIUgO2t0jWMUW") // passphrases that happen to be well-formed bcrypt hash strings
 		conf := pw
 		if r.Intn(8) == 0 {
 			conf = pickS(r, "", pw+"x", "different1!A")
